@@ -273,6 +273,27 @@ def support_failures(buf, C, E, fills, ctx: Ctx) -> list[tuple[str, str]]:
     return fails
 
 
+def clause_bigint(cases, ctx: Ctx):
+    """case: {C, n}: integer observations beyond 2^24 (hashed / tabular state ids in Discrete(2^30)) must come back exactly: the stored
+    fields keep the observation space's dtype, under jit as well."""
+    out = []
+    for ci, c in enumerate(cases):
+        C, n = c["C"], c["n"]
+        space = Discrete(2**30)
+        buf = ReplayBuffer(C, space, Discrete(4), TagState(jnp.asarray(0, dtype=int)))
+        base = 2**24 + 1
+        add = eqx.filter_jit(lambda b, o, no, a: b.add(o, no, a, jnp.asarray(0.0), jnp.asarray(False), jnp.asarray(False), TagState(a), TagState(a + 1)))
+        for i in range(n):
+            buf = add(buf, jnp.asarray(base + 2 * i, dtype=int), jnp.asarray(base + 2 * i + 2, dtype=int), jnp.asarray(i % 4, dtype=int))
+        obs, nobs = np.asarray(buf.observations), np.asarray(buf.next_observations)
+        want = {i % C: base + 2 * i for i in range(max(0, n - C), n)}
+        ctx.guard("bigint-observations")
+        bad = [(sl, int(obs[sl]), w, int(nobs[sl]), w + 2) for sl, w in want.items() if int(obs[sl]) != w or int(nobs[sl]) != w + 2]
+        if bad or obs.dtype.kind not in "iu":
+            out.append((ci, "C06/contents/integer-observation-not-stored-exactly", f"C={C} after {n} insertions of observations {base}, {base + 2}, ...: dtype {obs.dtype}; (slot, stored obs, inserted obs, stored next, inserted next) = {bad[:3]}"))
+    return out
+
+
 def clause_path(cases, ctx: Ctx):
     """case: {C, E, path, keys, sample: bool}.  Replays the path on the real buffer."""
     out = []
@@ -299,7 +320,7 @@ def clause_diamond(cases, ctx: Ctx):
     return out
 
 
-CLAUSES = {"path": clause_path, "diamond": clause_diamond}
+CLAUSES = {"path": clause_path, "diamond": clause_diamond, "bigint": clause_bigint}
 
 
 def explore(ctx: Ctx):
@@ -356,6 +377,7 @@ def explore(ctx: Ctx):
         ctx.run("path", cases)
         ctx.traces += len(cases)
         ctx.run("diamond", diamonds)
+    ctx.run("bigint", [dict(C=C, n=n) for (C, n) in ((3, 2), (3, 5), (4, 9))])
     # secondary model-based pass: TLC-verified TLA+ ring model, all edges replayed against the real add()
     tlc_cfgs = [(1, 1, 4, 0), (2, 1, 7, 0), (3, 1, 10, 0), (2, 1, 5, 1), (2, 2, 4, 2), (3, 2, 5, 2)] + ([(2, 3, 3, 3), (4, 2, 6, 2), (5, 1, 16, 0)] if thorough else [])
     ctx.run("tlc", [dict(C=C, E=E, MaxN=M, real_E=rE) for (C, E, M, rE) in tlc_cfgs])
